@@ -24,7 +24,7 @@ WORDS = ["kit", "kitten", "itt", "resv", "kitt", "ten", "xkit"]
 CFGS = {
     "full": dict(salt="S1", anon_pwd=True, anon_ip=True, sensitive_words=WORDS, as_numbers=["65001", "12"], reserved_words=None),
     "resvA": dict(salt="S1", anon_pwd=True, anon_ip=False, sensitive_words=["resv", "zurnet"], as_numbers=None, reserved_words=["resva", "MyResvA"]),
-    "other": dict(salt="S2", anon_pwd=True, anon_ip=True, sensitive_words=WORDS, as_numbers=None, reserved_words=["resvb"]),
+    "other": dict(salt="_lab-salt-2024", anon_pwd=True, anon_ip=True, sensitive_words=WORDS, as_numbers=None, reserved_words=["resvb"]),
     "netsX": dict(salt="S1", anon_pwd=False, anon_ip=True, sensitive_words=None, as_numbers=None, reserved_words=None, preserve_networks=["11.22.0.0/16", "12.0.0.0/8"]),
     "nosalt": dict(salt=None, anon_pwd=True, anon_ip=True, sensitive_words=["zurnet"], as_numbers=["65001"], reserved_words=None),
 }
